@@ -539,3 +539,42 @@ func hammerRound(r *hx.Rng, round int) {
 	}
 	res.Count("soak:hammer", fmt.Sprintf("hammer-%d", round), false)
 }
+
+// the chain-coupled crash scenario runs in a child as well (it installs its own pool and chain process-wide)
+func runCrashChild(a hx.Args, seed uint64) {
+	cdir := filepath.Join(a.Out, "crashchild")
+	wdir := filepath.Join(a.Out, "crashwork")
+	os.MkdirAll(cdir, 0o755)
+	os.MkdirAll(wdir, 0o755)
+	cmd := exec.Command(os.Args[0], "-seed", fmt.Sprint(seed), "-n", "0", "-tier", a.Tier, "-out", cdir)
+	cmd.Dir = wdir
+	cmd.Env = append(os.Environ(), "C17_CRASH_CHILD=1")
+	var buf bytes.Buffer
+	cmd.Stdout = &buf
+	cmd.Stderr = &buf
+	runErr := cmd.Run()
+	out := buf.String()
+	os.WriteFile(filepath.Join(a.Out, "crashchild.log"), []byte(out), 0o644)
+	os.RemoveAll(wdir)
+	var child hx.Result
+	b, err := os.ReadFile(filepath.Join(cdir, "result.json"))
+	if runErr != nil || err != nil || json.Unmarshal(b, &child) != nil {
+		tail := out
+		if len(tail) > 3000 {
+			tail = tail[len(tail)-3000:]
+		}
+		violate("C17/at-most-once:after-crash:scenario-died", fmt.Sprint("the chain-coupled crash scenario did not complete: ", runErr), map[string]interface{}{"seed": seed, "output_tail": tail})
+		return
+	}
+	for _, v := range child.Violations {
+		res.Violate(v.Key, v.What, v.Input)
+	}
+	for k, n := range child.Histogram {
+		if !strings.HasPrefix(k, "violation:") {
+			res.Histogram[k] += n
+		}
+	}
+	res.Evaluations += child.Evaluations
+	res.DistinctNontrivial += child.DistinctNontrivial
+	res.Notes = append(res.Notes, child.Notes...)
+}
